@@ -4,3 +4,4 @@ open GoRedis
 #print axioms C11_prefix_is_error_chunked
 #print axioms C11_partial_request_not_executed
 #print axioms C11_released
+#print axioms C11_source_conn_loop_is_the_modelled_one
